@@ -3,10 +3,10 @@ CONSTANTS
   Procs = {1}
   MaxRev = 10
   MaxOps = 4
-  MaxFaults = 0
+  MaxFaults = 1
   MaxCrash = 0
   MaxEdits = 3
-  FaultKinds = {}
+  FaultKinds = {"res", "wait"}
   Sequential = TRUE
   Planned = TRUE
   MaxPlan = 36
